@@ -16,6 +16,7 @@ func init() {
 			"Page capacity (R8): the page count requested for a node / the free list is at least ceil(size/pageSize) of the very object then written into the allocated page, buffers are count*pageSize bytes, node.size()/sizeLessThan() count header + element header + key + value, the serialiser places data after the element array and advances by key+value, Commit grows the file to the high-water mark and grow truncates to at least the request (all tabulated with the T6 evaluator). " +
 			"NOT decided: key order within and across pages for arbitrary histories, that split/rebalance keep nodes non-empty, agreement of Stats and Check with the accounting (all value-level). Round 3: rebalance re-parents materialised children of transferred inodes to the receiving node. Round 4: the free list rebuilt by scanning comes from the integrity check's reachability walk (re-evaluated).",
 		Run: func(c *Ctx) {
+			ruleEveryCachedChildSpilled(c, "C07.R14")
 			c13R1(c, "C07.R13") // "both free and in use": the rebuilt free list is the complement of the integrity check's reachability walk
 			c07R1(c, "C07.R1")
 			c07R2(c, "C07.R2")
